@@ -587,7 +587,7 @@ func clRun(cfg *config, toks []string) string {
 		select {
 		case runErr = <-done:
 			return true
-		case <-time.After(20 * time.Second):
+		case <-time.After(60 * time.Second):
 			c.Process.Kill()
 			return false
 		}
